@@ -1,7 +1,7 @@
 (* Every offset stored in a parse tree of Model/StmtParse.v, as (ctx_start.pos, ctx_end.pos) pairs; the `.ctx`
    attribute that instruction() puts on a code block counts as the pair (p, p).  Definitions only (used in the
    statement of P_offsets_in_file). *)
-From Coq Require Import List NArith.
+From Coq Require Import List NArith String.
 From Verif Require Import Model.StmtParse.
 Import ListNotations.
 Open Scope N_scope.
@@ -46,3 +46,20 @@ Fixpoint shift_node (k : N) (n : node) : node :=
 Definition shift_span (k : N) (s : span) : span := (fst s + k, snd s + k).
 Definition shift_diag (k : N) (d : diag) : diag := (fst d, map (shift_span k) (snd d)).
 Definition shift_ctx (k : N) (c : ctx) : ctx := mkCtx (pos c + k) (rest c).
+
+(* parse() started at offset p of a larger text whose remaining part is [text]; parse_file = parse_at 0 *)
+Definition parse_at (fuel : nat) (p : N) (text : list N) : presult :=
+  match code_body (funs_at fuel) false (mkCtx p text) [] with
+  | Ok b _ d => POk b (rev d)
+  | Fail _ _ => PCrash "parse: uncaught RecoverableError"%string
+  | Crit d => PCritical (rev d)
+  | Crash s => PCrash s
+  | OutOfFuel => POutOfFuel
+  end.
+Definition shift_result (k : N) (r : presult) : presult :=
+  match r with
+  | POk b d => POk (shift_node k b) (map (shift_diag k) d)
+  | PCritical d => PCritical (map (shift_diag k) d)
+  | PCrash s => PCrash s
+  | POutOfFuel => POutOfFuel
+  end.
